@@ -93,6 +93,35 @@ def _name(v):
     return f"n{v}"
 
 
+def _model_str(model, name, cap=40):
+    n = int(_const(model, f"len_{name}", 0))
+    if n > cap or n < 0:
+        return None
+    f = model["funcs"].get(f"chr_{name}", {})
+    return "".join(_chr(f.get(str(i), f.get(i, 97))) for i in range(n))
+
+
+def lift_stateinline(model, prefix="state"):
+    from markdown_it import MarkdownIt
+    from markdown_it.rules_inline.state_inline import StateInline
+
+    src = _model_str(model, f"{prefix}.src")
+    if src is None:
+        return None
+    md = MarkdownIt("commonmark").enable("strikethrough")
+    st = StateInline(src, md, {}, [])
+    st.pos = int(_const(model, f"{prefix}.pos", 0))
+    st.posMax = int(_const(model, f"{prefix}.posMax", len(src)))
+    st.level = int(_const(model, f"{prefix}.level", 0))
+    st.pendingLevel = st.level
+    st.pending = _model_str(model, f"{prefix}.pending") or ""
+    st.backticksScanned = bool(_const(model, f"{prefix}.backticksScanned", False))
+    keys = model["arrays"].get(f"{prefix}.backticks?in", {})
+    vals = model["arrays"].get(f"{prefix}.backticks", {})
+    st.backticks = {int(k): int(vals.get(k, 0)) for k, v in keys.items() if v is True and int(k) >= 1}
+    return st
+
+
 def lift_tokens(model, prefix="state.tokens"):
     """a record list of TokenA -> real Token objects (pairwise distinct); atoms decoded through the model's atom table"""
     from markdown_it.token import Token
@@ -195,6 +224,15 @@ def replay_obligation(ob, contracts_mod: str):
             fn = lambda **kw: meth(**kw)  # noqa: E731
             info["lifted"] = {"constructor": "Ruler() + Rule records from the model", "arguments": {"rules": [(x.name, x.enabled, list(x.alt)) for x in r.__rules__], "cache_is_none": r.__cache__ is None,
                                                                                                    **{k: (v if not callable(v) else "<fn>") for k, v in args.items() if k != "self"}}}
+        elif c.params.get("state") == "obj:StateInline" and list(c.params) == ["state", "silent"]:
+            st = lift_stateinline(model)
+            if st is None:
+                return info
+            args = {"state": st, "silent": bool(_const(model, "silent", False))}
+            fn = getattr(importlib.import_module(".".join(parts[:-1])), parts[-1])
+            info["lifted"] = {"constructor": "StateInline(src, md, {}, []) + fields from the model",
+                              "arguments": {"src": st.src, "pos": st.pos, "posMax": st.posMax, "pending": st.pending, "level": st.level,
+                                            "backticksScanned": st.backticksScanned, "backticks": st.backticks, "silent": args["silent"]}}
         elif c.params.get("delimiters") == "reclist:Delimiter":
             from types import SimpleNamespace
 
